@@ -123,6 +123,14 @@ def group_cfgs(seed):
 
 
 def work(tier, seed):
+    import os
+
+    parts = os.environ.get("VERIF_PARTS")
+    units = _work(tier, seed)
+    return [u for u in units if not parts or u["part"] in parts]
+
+
+def _work(tier, seed):
     units = []
     if tier == "quick":
         cfgs = pipeline_cfgs([0.5], seed)
@@ -263,6 +271,7 @@ def run_unit(unit):
     res = {"evals": 0, "transitions": 0, "states": set(), "outcomes": set(), "nontrivial_count": 0, "violations": [], "samples": [],
            "stats": {"max_err_over_tol": 0.0, "refreshes": 0, "histories_with_mask_change": 0, "configs": 0, "part_" + unit["part"]: 0}}
     part = unit["part"]
+    worst_desc = None
     for cfg in unit["cfgs"]:
         res["stats"]["configs"] += 1
         hs, default_ev = hist_list(part, unit["depth"], len(cfg["shapes"]), unit.get("nmask", 3))
@@ -277,7 +286,9 @@ def run_unit(unit):
                 res["states"].update(r["digests"])
                 if r["digests"]:
                     res["outcomes"].add(r["digests"][-1])
-                res["stats"]["max_err_over_tol"] = max(res["stats"]["max_err_over_tol"], r["worst"])
+                if r["worst"] > res["stats"]["max_err_over_tol"]:
+                    res["stats"]["max_err_over_tol"] = r["worst"]
+                    worst_desc = f"{r['worst']:.3f} {seq.WORST_NAME[0]} cfg={brief(cfg)} hist={[e[1] if e[0] == 'step' else e for e in hist]}"
                 res["stats"]["refreshes"] += r["refreshes"]
             steps = [ev[1] for ev in hist if ev[0] == "step"]
             if any(a != b for a, b in zip(steps, steps[1:])) or len(steps) != len(hist):
@@ -291,6 +302,8 @@ def run_unit(unit):
             break
         if len(res["samples"]) < 1:
             res["samples"].append({"part": part, "cfg": brief(cfg), "history": hs[min(len(hs) - 1, 5)]})
+    if worst_desc and res["stats"]["max_err_over_tol"] > 0.3:
+        res["stats"]["worst_cases"] = [worst_desc[:400]]
     res["stats"]["undecidable_reference_comparisons"] = seq.UNDECIDED[0]
     seq.UNDECIDED[0] = 0
     res["states"] = list(res["states"])
